@@ -19,6 +19,10 @@ import (
 // gens maps a property id to its scenario generator.
 var gens = map[string]func(r *rand.Rand, run int, tier string) *Scenario{}
 
+// genSeed is VERIF_SEED of the run being generated (for generators that derive a family of runs
+// from run/N and sweep a fault position with run%N).
+var genSeed uint64
+
 // shrinkers maps an engine to its candidate generator: it yields simplified copies.
 var shrinkers = map[string]func(sc *Scenario, yield func(c *Scenario) bool){}
 
@@ -108,6 +112,7 @@ func generate(prop string, seed uint64, run int, tier string) *Scenario {
 	}
 
 	r := newRng(seed, uint64(run), 1)
+	genSeed = seed
 	sc := g(r, run, tier)
 
 	if sc == nil {
